@@ -42,14 +42,46 @@ def _dep(name, path, extra=""):
     return '%s = { path = "%s/%s"%s }' % (name, REPO, path, extra)
 
 
+def _declared_features(crate_dir):
+    """names in the [features] table of a crate of the working tree"""
+    names = []
+    try:
+        text = open(os.path.join(REPO, crate_dir, "Cargo.toml")).read()
+    except OSError:
+        return names
+    in_f = False
+    for line in text.splitlines():
+        t = line.strip()
+        if t.startswith("["):
+            in_f = t == "[features]"
+            continue
+        if in_f and "=" in t and not t.startswith("#"):
+            names.append(t.split("=")[0].strip())
+    return names
+
+
+def _features_clause(crate_dir):
+    skip = {"default", "no_simd", "packed_simd"}
+    fs = [f for f in _declared_features(crate_dir) if f not in skip]
+    return (', features = [%s]' % ", ".join('"%s"' % f for f in fs)) if fs else ""
+
+
 def deps_for(hb):
-    tf = ""
-    if hb in ("std", "std-native", "std-features") or hb.startswith("std-layout"):
+    tf = ppv = gro = ske = ""
+    if hb in ("std", "std-native", "std-features", "std-v2", "std-v3") or hb.startswith("std-layout"):
         chacha = blake = jh = ""
         if hb == "std-features":
-            # the cargo features the default build leaves off and that change code: threefish's `no_unroll` (loops instead of
-            # unrolled rounds; reaches Skein through feature unification)
-            tf = ', features = ["no_unroll"]'
+            # every cargo feature the crates declare and the default build leaves off (read from the working tree, so a feature
+            # that a change adds or gives a meaning to is switched on too): today threefish's `no_unroll` (loops instead of unrolled
+            # rounds; reaches Skein through feature unification) and the deprecated, empty `simd` features. `no_simd` is the
+            # portable build; features that need a crate the offline registry lacks (packed_simd) are left out.
+            chacha = _features_clause("stream-ciphers/chacha")
+            blake = _features_clause("hashes/blake")
+            jh = _features_clause("hashes/jh")
+            tf = _features_clause("block-ciphers/threefish")
+            ppv = _features_clause("utils-simd/ppv-lite86")
+            gro = _features_clause("hashes/groestl")
+            ske = _features_clause("hashes/skein")
     elif hb == "portable":
         chacha = ', features = ["no_simd"]'
         blake = jh = ""
@@ -62,10 +94,10 @@ def deps_for(hb):
             _dep("c2-chacha", "stream-ciphers/chacha", chacha),
             _dep("blake-hash", "hashes/blake", blake),
             _dep("jh-x86_64", "hashes/jh", jh),
-            _dep("groestl-aesni", "hashes/groestl"),
-            _dep("skein-hash", "hashes/skein"),
+            _dep("groestl-aesni", "hashes/groestl", gro),
+            _dep("skein-hash", "hashes/skein", ske),
             _dep("threefish-cipher", "block-ciphers/threefish", tf),
-            _dep("ppv-lite86", "utils-simd/ppv-lite86"),
+            _dep("ppv-lite86", "utils-simd/ppv-lite86", ppv),
         ]
     )
 
@@ -76,6 +108,11 @@ HOST_BUILDS = {
     # supports (AVX2, AVX-512 ...) is compiled in, as with RUSTFLAGS=-C target-cpu=native
     "std-native": "-C target-cpu=native",
     "std-features": "",
+    # run-time dispatch as shipped, compiled for a mid-level baseline: cfg(target_feature = "ssse3" / "sse4.1") code is compiled in
+    # while the simulated host (hook H1) may still select the SSE2 machine - what a distribution build for x86-64-v2 does on an
+    # AVX-less CPU
+    "std-v2": "-C target-cpu=x86-64-v2",
+    "std-v3": "-C target-cpu=x86-64-v3",
     # the compiler is part of the environment too: field order of ordinary (non-repr(C)) structs is unspecified; these two
     # builds let nightly rustc randomise it (a layout assumption in unsafe code shows here and nowhere else)
     "std-layout1": "-Zrandomize-layout -Zlayout-seed=1",
@@ -306,12 +343,21 @@ class Cross:
 PROPS = {}
 
 
-def prop(pid, level, rule, assumptions, legs, real_vs_stub, cross=None, streams=None, selftest=False, miri=False, miri_mem=False, be_host=None, huge=None, memcheck=None):
-    PROPS[pid] = dict(memcheck=memcheck, level=level, rule=rule, assumptions=assumptions, legs=legs, real_vs_stub=real_vs_stub, cross=cross or [], streams=streams or [], selftest=selftest, miri=miri, miri_mem=miri_mem, be_host=be_host, huge=huge or [])
+def prop(pid, level, rule, assumptions, legs, real_vs_stub, cross=None, streams=None, selftest=False, miri=False, miri_mem=False, be_host=None, huge=None, memcheck=None, blockonly=False):
+    PROPS[pid] = dict(blockonly=blockonly, memcheck=memcheck, level=level, rule=rule, assumptions=assumptions, legs=legs, real_vs_stub=real_vs_stub, cross=cross or [], streams=streams or [], selftest=selftest, miri=miri, miri_mem=miri_mem, be_host=be_host, huge=huge or [])
 
 
 REAL = "real code: every algorithm, buffer and dispatch path of the crates under /repo, built from the working tree"
 STUB = "simulated: the oracles (reference models), the CPU-capability report (hook H1), buffer placement, the counter value (hook H2)"
+
+MID_HASH = [dict(what="hash:" + t_, len=l_, pre=p_) for (t_, l_, p_) in [
+    ("Jh256", 65536, 3), ("Jh512", (1 << 20) + 64, 63), ("Blake256", 65536, 1), ("Blake512", (1 << 20), 127), ("Groestl256", 65536 + 64, 63),
+    ("Groestl512", (1 << 20), 100), ("Skein256_32", 65536, 31), ("Skein512_64", (1 << 20) + 1, 63), ("Skein1024_128", 65536 * 3, 5),
+    ("Jh224", (1 << 24) + 64, 1), ("Blake224", (1 << 24), 55), ("Groestl384", (1 << 24), 65), ("Skein512_28", (1 << 24) + 3, 64)]]
+MID_CIPHER = [dict(what="cipher:" + t_, len=l_, pre=p_) for (t_, l_, p_) in [
+    ("ChaCha20", 1 << 20, 5), ("ChaCha8", 1 << 16, 17), ("XChaCha12", (1 << 20) + 16, 63), ("Ietf", 1 << 24, 1), ("ChaCha12", (1 << 24) + 256, 37),
+    ("XChaCha20", 1 << 16, 70), ("XChaCha8", 1 << 22, 255)]]
+
 
 prop(
     "C02",
@@ -333,6 +379,7 @@ prop(
         Leg("std", "dev", "chacha_stream", "C02", 50000, 1000000),
         Leg("portable", "checked", "chacha_stream", "C02", 20000, 2000000, tiers=("thorough",)),
         Leg("std-native", "release", "chacha_stream", "C02", 200000, 2000000),
+        Leg("std-features", "release", "chacha_stream", "C02", 100000, 2000000),
         Leg("nostd-avx2", "release", "chacha_stream", "C02", 100000, 2000000),
     ],
     [REAL, STUB],
@@ -341,6 +388,7 @@ prop(
     huge=[
         dict(what="cipher:XChaCha20", len=4 * (1 << 30) + 3, pre=27),
         dict(what="cipher:ChaCha20", len=2 * (1 << 30) + 5),
+        *MID_CIPHER,
         dict(what="cipher:ChaCha8", len=4 * (1 << 30) + 1024 + 5, pre=0),
         dict(what="cipher:XChaCha8", len=5 * (1 << 30) + 300, pre=63, tiers=("thorough",)),
         dict(what="exhaust:Ietf", len=(1 << 38) + 64, seek=0, timeout=20),
@@ -418,6 +466,8 @@ prop(
         Leg("std", "release", "chacha_block", "C14", 1000000, 20000000, max_ops=32),
         Leg("std", "checked", "chacha_block", "C14", 1000000, 20000000, max_ops=32),
         Leg("std", "dev", "chacha_block", "C14", 50000, 1000000, max_ops=32),
+        Leg("std-features", "release", "chacha_block", "C14", 100000, 2000000, max_ops=32),
+        Leg("std-v2", "checked", "chacha_block", "C14", 100000, 2000000, max_ops=32),
     ],
     [REAL, STUB],
     cross=[Cross("chacha_block", "C14", "checked", 40000, 400000, QUICK_FIXED, ALL_FIXED, max_ops=32)],
@@ -433,6 +483,7 @@ prop(
         dict(what="rounds:65536", len=0xfffffffd),
         dict(what="rounds:16777217", len=0x1fffffffe),
     ],
+    blockonly=True,
 )
 
 prop(
@@ -452,6 +503,9 @@ prop(
         Leg("nostd-sse41", "release", "chacha_block", "C15", 100000, 1000000, max_ops=32),
         Leg("nostd-avx2", "release", "chacha_block", "C15", 100000, 1000000, max_ops=32),
         Leg("std-native", "release", "chacha_block", "C15", 100000, 1000000, max_ops=32),
+        Leg("std-features", "release", "chacha_block", "C15", 100000, 1000000, max_ops=32),
+        Leg("std-features", "release", "chacha_block@hosts", "C15", 40000, 400000, max_ops=32),
+        Leg("std-v2", "release", "chacha_block@hosts", "C15", 40000, 400000, max_ops=32),
         Leg("std-layout1", "release", "chacha_block", "C15", 100000, 1000000, max_ops=32),
         Leg("std-layout4", "release", "chacha_block", "C15", 100000, 1000000, max_ops=32),
         Leg("std-layout5", "release", "chacha_block", "C15", 100000, 1000000, max_ops=32),
@@ -510,6 +564,17 @@ prop(
     # same bytes in 1 MiB-3 pieces
     huge=[
         dict(what="hash:Groestl256", len=8 * (1 << 30) + 200, tiers=("quick",)),
+        *MID_HASH,
+        # lengths just below / at 2^32 bytes (a run length capped at "the largest multiple of the block size below 2^32"), and
+        # a 4 GiB call arriving on more than half a buffered block
+        dict(what="hash:Skein512_64", len=(1 << 32) - 64),
+        dict(what="hash:Groestl512", len=(1 << 32), pre=100),
+        dict(what="hash:Skein256_32", len=(1 << 32) - 32, tiers=("thorough",)),
+        dict(what="hash:Skein1024_128", len=(1 << 32) - 128, pre=128, tiers=("thorough",)),
+        dict(what="hash:Blake512", len=(1 << 32) - 128, pre=127, tiers=("thorough",)),
+        dict(what="hash:Jh256", len=(1 << 32) - 64, pre=63, tiers=("thorough",)),
+        dict(what="hash:Groestl256", len=(1 << 32) - 64, pre=1, tiers=("thorough",)),
+        dict(what="hash:Groestl384", len=2 * ((1 << 32) - 128), pre=127, tiers=("thorough",)),
         dict(what="hash:Groestl256", len=32 * (1 << 30) + 200, tiers=("thorough",), timeout=3000),
         dict(what="hash:Groestl512", len=32 * (1 << 30) + 129, pre=7, tiers=("thorough",), timeout=3000),
         dict(what="hash:Blake256", len=32 * (1 << 30) + 65, tiers=("thorough",), timeout=3000),
@@ -543,13 +608,20 @@ prop(
         # programs of vector operations on every Machine type at once (SSE2..AVX2), registers compared after every step
         Leg("std", "release", "vecops", "C03", 300000, 6000000, max_ops=40),
         Leg("std", "checked", "vecops", "C03", 100000, 2000000, max_ops=40),
+        Leg("std-v2", "release", "vecops", "C03", 100000, 2000000, max_ops=40),
+        Leg("std-v3", "release", "vecops", "C03", 50000, 2000000, max_ops=40),
+        Leg("std-v2", "release", "hash_stream@hosts", "C03", 20000, 400000, max_ops=30),
+        Leg("std-v2", "release", "chacha_stream@hosts", "C02", 20000, 400000),
+        Leg("std-v2", "release", "chacha_block@hosts", "C14", 20000, 400000, max_ops=32),
+        Leg("std-features", "release", "chacha_block@hosts", "C14", 20000, 400000, max_ops=32),
+        Leg("std-features", "release", "vecops", "C03", 50000, 1000000, max_ops=40),
     ],
     [REAL, STUB],
     cross=[
         Cross("hash_stream", "C03", "release", 20000, 200000, QUICK_FIXED + ["std-features"], ALL_FIXED + ["std-features"], max_ops=30),
         Cross("chacha_stream", "C02", "release", 20000, 200000, QUICK_FIXED, ALL_FIXED),
         Cross("chacha_block", "C14", "release", 20000, 200000, QUICK_FIXED, ALL_FIXED, max_ops=32),
-        Cross("vecops", "C03", "release", 100000, 2000000, ["portable", "std-native"], ["portable", "nostd-sse2", "nostd-avx2", "std-native"], max_ops=40),
+        Cross("vecops", "C03", "release", 100000, 2000000, ["portable", "std-native", "std-v2", "std-features"], ["portable", "nostd-sse2", "nostd-avx2", "std-native", "std-v2", "std-v3", "std-features"], max_ops=40),
     ],
     # (the lane-level vector programs are not compared on the big-endian host: their storage-conversion loads are a
     # native-memory pun by design; the byte-I/O programs - vecopsb - are)
@@ -597,6 +669,8 @@ prop(
     memcheck={"quick": 640, "thorough": 8000},
     huge=[
         dict(what="hash:Groestl256", len=2 * (1 << 30) + 81),
+        *MID_HASH,
+        *MID_CIPHER,
         dict(what="cipher:ChaCha20", len=4 * (1 << 30) + 3, pre=27),
         dict(what="cipher:XChaCha12", len=2 * (1 << 30) + 9, pre=0),
         dict(what="cipher:ChaCha12", len=4 * (1 << 30) + 777, pre=5),
@@ -677,6 +751,15 @@ prop(
     # count 2^32 bits
     be_host={"quick": [(I686_TARGET, 1, "counters"), (PPC_TARGET, 1, "counters"), ("cpu:sse2", 1, "counters"), ("cpu:avx2", 1, "counters")],
              "thorough": [(I686_TARGET, 3, "counters"), (BE_TARGET, 1, "counters"), (PPC_TARGET, 2, "counters"), (ARM_TARGET, 2, "counters")] + [(c_, 2, "counters") for c_ in CPU_LEVELS]},
+    # one update call of more than 2^32 bytes: the position counter inside a single call
+    huge=[
+        dict(what="hash:Skein512_64", len=(1 << 32) + 4096),
+        dict(what="hash:Blake256", len=(1 << 29) + 64, pre=3),
+        dict(what="hash:Skein256_32", len=(1 << 32) + 32, pre=31, tiers=("thorough",)),
+        dict(what="hash:Skein1024_128", len=(1 << 33) + 1, tiers=("thorough",)),
+        dict(what="hash:Jh256", len=(1 << 32) + 64, pre=1, tiers=("thorough",)),
+        dict(what="hash:Groestl256", len=(1 << 32) + 64, pre=63, tiers=("thorough",)),
+    ],
 )
 
 
@@ -839,6 +922,12 @@ def run_property(pid, tier):
             collect_huge(pid, huge_procs, replay_dir, huge_results, violations, known)
         except HarnessError as e:
             harness_error = str(e)
+    blockonly_results = []
+    if spec.get("blockonly") and not harness_error:
+        try:
+            run_blockonly(pid, tier, sd, replay_dir, blockonly_results, violations, known)
+        except HarnessError as e:
+            harness_error = str(e)
     stream_results = []
     if spec.get("streams") and not harness_error:
         try:
@@ -874,6 +963,9 @@ def run_property(pid, tier):
     if huge_results:
         extra = dict(extra or {}, huge_single_calls=huge_results)
         total_runs += len(huge_results)
+    if blockonly_results:
+        extra = dict(extra or {}, builds_without_the_cipher_front_end=blockonly_results)
+        total_runs += len(blockonly_results)
     if be_results:
         extra = dict(extra or {}, interpreted_hosts=be_results)
         total_runs += len(be_results)
@@ -1534,6 +1626,58 @@ def run_huge(pid, entries, tier, sd, replay_dir, results, violations, known):
     collect_huge(pid, procs, replay_dir, results, violations, known)
 
 
+BLOCKONLY_VARIANTS = {"std": ', features = ["std"]', "nostd": ""}
+
+
+def run_blockonly(pid, tier, sd, replay_dir, results, violations, known, only=None):
+    """C14 in the builds of c2-chacha that leave the cipher front end out (cargo feature rustcrypto_api off; with and without
+    std): the worker needs that front end, so these configurations get a program of their own (native, release and dev)."""
+    for variant, feats in BLOCKONLY_VARIANTS.items():
+        for profile in ("release", "dev"):
+            if only and only != (variant, profile):
+                continue
+            tag = "blockonly%s-%s" % (repo_tag(), variant)
+            bdir = os.path.join(VERIF, "build", tag)
+            os.makedirs(os.path.join(bdir, ".cargo"), exist_ok=True)
+            tmpl = open(os.path.join(VERIF, "blockonly", "Cargo.toml.in")).read()
+            manifest = tmpl.replace("@REPO@", REPO).replace("@BO@", os.path.join(VERIF, "blockonly")).replace("@FEATURES@", feats)
+            mpath = os.path.join(bdir, "Cargo.toml")
+            if not os.path.exists(mpath) or open(mpath).read() != manifest:
+                open(mpath, "w").write(manifest)
+            if not os.path.exists(os.path.join(bdir, "Cargo.lock")):
+                shutil.copy(os.path.join(VERIF, "sim", "Cargo.lock.seed"), os.path.join(bdir, "Cargo.lock"))
+            open(os.path.join(bdir, ".cargo", "config.toml"), "w").write("[net]\noffline = true\n")
+            env = dict(os.environ, RUSTFLAGS=BASE_RUSTFLAGS, CARGO_NET_OFFLINE="true", CARGO_TARGET_DIR=os.path.join(VERIF, "target", tag))
+            cmd = ["cargo", "run", "--offline", "--quiet", "--manifest-path", mpath] + (["--release"] if profile == "release" else []) + ["--", str(sd)]
+            t0 = time.time()
+            try:
+                p = subprocess.run(cmd, env=env, cwd=bdir, stdout=subprocess.PIPE, stderr=subprocess.PIPE, text=True, timeout=900)
+                rc, so, se = p.returncode, p.stdout, p.stderr
+            except subprocess.TimeoutExpired:
+                rc, so, se = "timeout", "", "does not finish within 900 s"
+            ok = rc == 0 and so.startswith("OK")
+            results.append(dict(build="c2-chacha default-features = false%s, %s profile" % (feats, profile), ok=ok, output=so.strip()[:200], wall_s=round(time.time() - t0, 1)))
+            log("[%s] block API without the cipher front end (%s, %s): %s" % (pid, variant, profile, so.strip()[:120] if ok else "FAILED rc=%s" % rc))
+            if ok:
+                continue
+            if rc not in (1, 101, "timeout") and "panicked" not in se:
+                log(se[-2000:])
+                raise HarnessError("the block-only program does not build (%s, %s)" % (variant, profile))
+            what = "does not finish" if rc == "timeout" else "panic" if "panicked" in se else "refill4 differs from four refills"
+            sig = "c2-chacha without rustcrypto_api (%s):%s" % (variant, what)
+            detail = (so.strip() + " " + "\n".join(l for l in se.splitlines() if "panicked" in l or "overflow" in l))[:600]
+            f = dict(kind="blockonly", variant=variant, profile=profile, verif_seed=sd, ops=[], minimised_from=1,
+                     violation=dict(properties=[pid], invariant="B3", signature=sig, at_op=0, detail=detail))
+            path = os.path.join(replay_dir, "%s-blockonly-%s-%s.json" % (pid, variant, profile))
+            json.dump(f, open(path, "w"))
+            f["replay"] = path
+            kf = open_finding_for(pid, sig)
+            if kf:
+                known.append((kf, f))
+            else:
+                violations.append(f)
+
+
 def start_huge(entries, tier):
     """start the huge single calls (one process each); they run while the legs do"""
     binary = build("std", "release")
@@ -1832,6 +1976,18 @@ def replay(pid, path):
             print("  (batch prefix of %d runs) %s" % (b["runs"], same[0]["violation"]["detail"]))
             return 1
         print("OK replay: the batch prefix passes on this tree")
+        return 0
+    if j.get("kind") == "blockonly":
+        res, viol, kn = [], [], []
+        run_blockonly(pid, "quick", j.get("verif_seed", 1), os.path.join(VERIF, "replays"), res, viol, kn, only=(j["variant"], j["profile"]))
+        if kn:
+            print("KNOWN-FINDING: property=%s %s" % (pid, kn[0][0].get("what")))
+            return 0
+        if viol:
+            print("VIOLATION property=%s replay=%s" % (pid, path))
+            print("  " + viol[0]["violation"]["detail"][:400])
+            return 1
+        print("OK replay: the block-only program passes on this tree")
         return 0
     if j.get("kind") == "memcheck":
         p = subprocess.run(VALGRIND + [build("std", "release")] + j["argv"], stdout=subprocess.PIPE, stderr=subprocess.PIPE, text=True)
